@@ -398,6 +398,15 @@ theorem measurement_codec_covered :
 
 theorem schema_codec_covered : subsetOf cov_schema_wireWritten cov_schema_wireRead = true := by decide
 
+/-- the query message (`RemoteQuery.Marshal` / `Unmarshal` with their MstInfos helpers): every field of
+the struct is shipped and restored, every message field written is read and the other way round. -/
+theorem remoteQuery_codec_covered :
+    subsetOf cov_remoteQuery_fields cov_remoteQuery_encoded = true ∧
+    subsetOf cov_remoteQuery_encoded cov_remoteQuery_decoded = true ∧
+    subsetOf cov_remoteQuery_decoded cov_remoteQuery_encoded = true ∧
+    subsetOf cov_remoteQuery_wireWritten cov_remoteQuery_wireRead = true ∧
+    subsetOf cov_remoteQuery_wireRead cov_remoteQuery_wireWritten = true := by decide
+
 /-- result chunks: every field `Marshal` writes is set by `Unmarshal` (and counted by `Size`,
 except the fixed-size ones); the row type, the embedded record and the graph are rebuilt by the
 receiver from the plan. -/
